@@ -56,6 +56,9 @@ def _observe(job):
     from copulas.multivariate import GaussianMultivariate
     rs = np.random.RandomState(seed)
     df = table(ncol, relations, rs, n=1234 if seed % 11 == 5 else 80, labels='int' if seed % 5 == 2 else 'str', scale=250.0 if seed % 9 == 4 else 1.0)
+    as_array = seed % 7 == 3
+    if as_array:        # the model is trained on a plain 2-D array: its columns are 0..d-1, and so are those of a frame made from an array
+        df.columns = pd.RangeIndex(ncol)
     cols = list(df.columns)
     rec = {'kind': 'density', 'err': '', 'S': S, 'rep': [], 'ref': [], 'logp': [], 'logref': [], 'chains': [], 'crep': [], 'cref': [],
            'ctol': 20000 if ncol >= 3 else 200, 'desc': '%d|%s|%s' % (ncol, ','.join(relations[1:]), cfg)}
@@ -74,7 +77,7 @@ def _observe(job):
                 except Exception:
                     pass
             m.sample(2)
-        m.fit(df.copy())
+        m.fit(df.to_numpy().copy() if as_array else df.copy())
         R = m.correlation.to_numpy()
         # query rows: inside the training range, far outside, and training rows
         q = df.iloc[:5].copy().reset_index(drop=True)
@@ -83,8 +86,9 @@ def _observe(job):
         nrow = len(rows)
         reps = []
         reps.append(np.asarray(m.probability_density(rows.copy()), dtype=float))
-        for perm in list(itertools.permutations(cols))[1:5]:
+        for perm in list(itertools.permutations(cols))[1:5] + [tuple(cols[::-1])]:
             reps.append(np.asarray(m.probability_density(rows[list(perm)].copy()), dtype=float))
+        reps.append(np.asarray(m.probability_density(rows.iloc[:, ::-1]), dtype=float))          # the frame's own reversed view
         reps.append(np.asarray(m.probability_density(rows.to_numpy().copy()), dtype=float))
         reps.append(np.array([float(np.ravel(m.probability_density(rows.iloc[i]))[0]) for i in range(nrow)]))       # Series, one row at a time
         reps.append(np.array([float(np.ravel(m.probability_density(rows.to_numpy()[i].copy()))[0]) for i in range(nrow)]))   # 1-D arrays
